@@ -71,6 +71,7 @@ ExpExc(xf, pre, e) ==
       [] e.op = "setidx"   -> IF PyPos(Len(pre), e.i) = 0 THEN "IndexError" ELSE ""
       [] OTHER             -> ""
 
+IsReuse(e) == "re" \in DOMAIN e /\ e.re
 NewName(e) == IF e.op = "get" THEN e.k ELSE e.n
 
 C_Ids(xf, pre, e, post)  == Ids(post) = ExpIds(xf, pre, e)
@@ -86,7 +87,11 @@ C_Values(xf, pre, e, post) ==
 \* after an insertion (append, insert, get(add=True)) the items sharing the new name are numbered :1..:n
 C_Numbered(xf, pre, e, post) ==
     (Adds(xf, pre, e) /\ e.op \notin {"setitem", "setidx"}) =>
-        LET p == PosOfId(post, e.nid) IN p # 0 => NumberedGroup(xf, post, p)
+        LET p == PosOfId(post, e.nid)
+        IN p # 0 => \/ NumberedGroup(xf, post, p)
+                    \* an item that is put back after a deletion still carries the session name it had ("A:2"); when it is the only
+                    \* item of its name the statement asks for nothing but distinctness and resolution ("unique names are left untouched")
+                    \/ IsReuse(e) /\ Cardinality(GroupOf(xf, post, p)) = 1
 \* ... and every other item keeps the session name it had
 C_Untouched(xf, pre, e, post) ==
     IF Adds(xf, pre, e)
